@@ -38,7 +38,7 @@ def main():
     # first free slot, wait if all are busy. NAME is only used in messages.
     import fcntl
     import time
-    POOL = 4
+    POOL = 3
     lockf = None
     while lockf is None:
         for k in range(POOL):
